@@ -467,6 +467,53 @@ def reify(c):
     raise Unsupported('class %s' % t.__name__)
 
 
+MACRO_KSY = ('_emitseq', '_emitprimitivetype', '_emitfulltype')
+
+
+def check_macro_shapes(c, seen=None):
+    """model/Ksy.v recognises the macros that carry their own KSY emitters (CString, GreedyString, PaddedString, PascalString,
+    If, Padding) by the shape of their expansion: an object of such a shape without the instance emitters, or an object
+    with instance emitters of another shape (Bitwise, Bytewise, PrefixedArray), is outside the model"""
+    seen = set() if seen is None else seen
+    if id(c) in seen:
+        return
+    seen.add(id(c))
+    if isinstance(c, core.Construct):
+        if type(c) in (core.FlagsEnum, core.Pointer, core.NamedTuple):
+            raise Unsupported('%s: its KSY emitter is outside the model of the exporter' % type(c).__name__)
+        has = any(k in vars(c) for k in MACRO_KSY)
+        shape = macro_shape(c)
+        if has != (shape is not None):
+            raise Unsupported('KSY emitters on the instance do not match the macro shape (%s)' % (shape or type(c).__name__))
+        for v in vars(c).values():
+            check_macro_shapes(v, seen)
+    elif isinstance(c, (list, tuple)):
+        for v in c:
+            check_macro_shapes(v, seen)
+    elif isinstance(c, dict):
+        for v in dict.values(c):
+            check_macro_shapes(v, seen)
+
+
+def macro_shape(c):
+    t = type(c)
+    if t is core.StringEncoded:
+        s = c.subcon
+        if s is core.GreedyBytes:
+            return 'GreedyString'
+        if type(s) is core.NullTerminated and s.subcon is core.GreedyBytes and not s.include and s.consume and s.require:
+            return 'CString'
+        if type(s) is core.FixedSized and type(s.subcon) is core.NullStripped and s.subcon.subcon is core.GreedyBytes:
+            return 'PaddedString'
+        if type(s) is core.Prefixed and s.subcon is core.GreedyBytes and not s.includelength:
+            return 'PascalString'
+    if t is core.IfThenElse and c.elsesubcon is core.Pass:
+        return 'If'
+    if t is core.Padded and c.subcon is core.Pass:
+        return 'Padding'
+    return None
+
+
 def no_emit_override(c, seen=None):
     """the model of the emitted code follows the class's emitter; an instance-level _emitparse / _emitbuild (PascalString)
     anywhere in the tree is outside it"""
